@@ -137,6 +137,15 @@ def run(ctx):
         tx.frac = (j % 16) / 16.0 * 2.0 % 1.0
         nlead = rng.range(0, 40)
         lead = rng.bytes(nlead)
+        # the lead-in stands for arbitrary earlier audio, not for a second preamble: redraw it while any 32-bit window that
+        # ends inside it (or within the first byte after it) is within 4 bit errors of the sync word -- such a lead-in makes the
+        # squelch synchronise early and abandon the search just before the data, which is what a preamble is for, not a fault
+        def _near_sync(bs):
+            bits = [(b >> k) & 1 for b in bs + b"\xab" for k in range(8)]
+            pat = [(0xAB >> (k % 8)) & 1 for k in range(32)]
+            return any(sum(1 for k in range(32) if bits[e - 32 + k] != pat[k]) <= 4 for e in range(32, len(bits) + 1))
+        while nlead >= 4 and _near_sync(lead):
+            lead = rng.bytes(nlead)
         data = H if rng.chance(3, 4) else b"NNNN"
         phase_bits = j % 8
         # lead-in random bits (as FSK, no gap) then preamble + data; a sub-byte shift via a partial first byte
